@@ -312,6 +312,34 @@ unsafe impl GlobalAlloc for MonitorAlloc {
         }
         p
     }
+    /// Zeroed requests go to the system's calloc (lazily zeroed pages) instead of the default
+    /// alloc + memset: a decoder that reserves gigabytes from a length prefix is then RECORDED (largest
+    /// request, peak) without the monitor itself touching every page of it.
+    unsafe fn alloc_zeroed(&self, layout: Layout) -> *mut u8 {
+        let size = layout.size();
+        let _ = A_LARGEST.try_with(|c| {
+            if size > c.get() {
+                c.set(size)
+            }
+        });
+        if size > ALLOC_HARD_CAP {
+            let _ = A_REFUSED.try_with(|c| c.set(size));
+            return std::ptr::null_mut();
+        }
+        let p = System.alloc_zeroed(layout);
+        if !p.is_null() {
+            let _ = A_LIVE.try_with(|c| {
+                let v = c.get().wrapping_add(size);
+                c.set(v);
+                let _ = A_PEAK.try_with(|pk| {
+                    if v > pk.get() && v < (usize::MAX >> 1) {
+                        pk.set(v)
+                    }
+                });
+            });
+        }
+        p
+    }
     unsafe fn dealloc(&self, ptr: *mut u8, layout: Layout) {
         let _ = A_LIVE.try_with(|c| c.set(c.get().wrapping_sub(layout.size())));
         System.dealloc(ptr, layout)
